@@ -63,7 +63,7 @@ class Gen:
         if self.cls == "closed-mixed" and not getattr(self, "_root", False):
             allow_arith = False
         self._root = False
-        choices = ["bit", "bit", "cmp", "mux", "slice", "cat", "rep", "shr"]
+        choices = ["bit", "bit", "cmp", "mux", "slice", "cat", "rep", "shr", "catslice"]
         if allow_arith:
             choices += ["arith", "arith", "arith", "shl", "not"]
         elif (arith_ok and self.cls != "closed-mixed") or self.hostile:
@@ -107,6 +107,10 @@ class Gen:
             return ["slice", e, None, None]          # bounds chosen at build time from the actual length
         if c == "cat":
             return ["cat", [self.expr(pool, depth - 1, False) for _ in range(r.randint(1, 3))]]
+        if c == "catslice":
+            # a slice of a concatenation (bounds around the element boundaries are chosen at build time)
+            return ["slice", ["cat", [self.leaf(pool) if r.random() < 0.6 else self.expr(pool, depth - 1, False) for _ in range(r.randint(2, 3))]],
+                    None, None]
         if c == "rep":
             return ["rep", self.expr(pool, depth - 1, False), r.randint(1, 3)]
         if c == "array":
@@ -320,6 +324,25 @@ def build(spec, inline_instances=False):
                 # every third slice is the full width (exercises the full-width slice lowering)
                 if (n + len(str(e[1]))) % 3 == 0:
                     a, b = 0, n
+                elif e[1][0] == "cat" and len(e[1][1]) >= 2:
+                    # slices of a concatenation around its element boundaries (the slice lowering narrows them to one element when
+                    # they fit): ending one or two bits into the next element, starting on a boundary, ending on one
+                    cum = [0]
+                    for x in e[1][1]:
+                        cum.append(cum[-1] + len(E(x)))
+                    sel = (n + 7 * len(str(e[1]))) % 6
+                    bnd = cum[1 + (sel + len(str(e))) % (len(cum) - 2)]
+                    if 0 < bnd < n:
+                        if sel == 0:
+                            a, b = max(0, bnd - 1), bnd + 1
+                        elif sel == 1:
+                            a, b = max(0, bnd - 2), bnd + 1
+                        elif sel == 2:
+                            a, b = max(0, bnd - 1), min(n, bnd + 2)
+                        elif sel == 3:
+                            a, b = bnd, min(n, bnd + max(1, (n - bnd) // 2))
+                        elif sel == 4:
+                            a, b = max(0, bnd - max(1, bnd // 2)), bnd
             else:
                 a, b = e[2], e[3]
             assert 0 <= a < b <= n, (e, n, a, b)
